@@ -137,9 +137,9 @@ func checkC17() fw.Check {
 		MinNontrivial: 30,
 		Assumptions:   []string{"reference predicate: RFC 1918 blocks and fc00::/7 on the unmapped address", "Linux build"},
 		Gen: func(tier string, seed int64) []fw.Case {
-			nDocs, nRuns := 40, 1
+			nDocs, nRuns := 100, 2
 			if tier == "thorough" {
-				nDocs, nRuns = 400, 6
+				nDocs, nRuns = 1500, 12
 			}
 			var cases []fw.Case
 			for i := 0; i < nDocs; i++ {
